@@ -30,7 +30,8 @@ EvOf(ev) ==
       [] ev.type = "localtimeout" -> [type |-> "localtimeout", view |-> ev.view]
       [] OTHER -> [type |-> "other"]
 Env(r2) == [n |-> cfg.n, q |-> cfg.q, leaders |-> cfg.leaders, rs |-> cfg.rs, agg |-> cfg.agg, reg |-> r2,
-            avail |-> {Line.fetch[i][1] : i \in {j \in 1..Len(Line.fetch) : Line.fetch[j][2]}}, newb |-> Line.new]
+            avail |-> {Line.fetch[i][1] : i \in {j \in 1..Len(Line.fetch) : Line.fetch[j][2]}}, newb |-> Line.new,
+            starved |-> IF "starved" \in DOMAIN Line THEN {Line.starved[i] : i \in 1..Len(Line.starved)} ELSE {}]
 Modelled == cfg.rs \in {"chainedhotstuff", "simplehotstuff"}
 Predict(r2) ==
     LET s == rep[Line.node] E == Env(r2) IN
